@@ -31,6 +31,12 @@ CLAUSE_TEXT = {
 }
 
 
+# Clauses evaluated and counted but never reported as violations (they ask for more than the statement).
+INFORMATIONAL = {
+    "HelperSupportKept": "the statement only bounds the helpers from above ('plus only those ... that still support a desired "
+                         "entry'); it does not demand that a still-needed helper is kept (lead's decision)",
+}
+
 # ------------------------------------------------------------------------------------------------ design
 
 def design(ctx, cfgs, workers):
@@ -190,10 +196,13 @@ def violations_from(failing):
     for tags, ln in failing:
         for t in tags:
             by[t].append(ln)
-    out = []
+    out, info = [], {}
     for tag in sorted(by):
         lns = by[tag]
         w = min(lns, key=lambda l: (l["step"], len(hist_prefix(l)), hist_prefix(l)))
+        if tag.split("/")[0] in INFORMATIONAL:
+            info[tag] = {"updates": len(lns), "smallest_history": hist_prefix(w), "why_not_a_violation": INFORMATIONAL[tag.split("/")[0]]}
+            continue
         clause = tag.split("/")[0]
         text = CLAUSE_TEXT.get(clause, clause)
         key = "%s: %s" % (tag, hist_prefix(w))
@@ -202,7 +211,7 @@ def violations_from(failing):
                                   % (tag, text, len(lns), hist_prefix(w), w["step"]),
                              replay={"clause": tag, "witness": sample_of(w), "occurrences": len(lns),
                                      "how": "VERIF_REPLAY=<json [{case,rootfs,updates}]> TestVerifMountPlan, then TraceMountPlan.tla"}))
-    return out, {t: len(v) for t, v in by.items()}
+    return out, {t: len(v) for t, v in by.items() if t.split("/")[0] not in INFORMATIONAL}, info
 
 
 def corrupt_control(ctx, files):
